@@ -329,8 +329,111 @@ def runJudge (c : Json) : E Json := do
   let o := parseCls (← str c "outcome")
   pure (Json.mkObj [("res", Json.bool (reloadAdmissible (some before) o (some after)))])
 
+/-! ### the watcher over several files -/
+
+/-- a real file operation as the events of the model; `next`: the number of the next file to be registered -/
+def fileOps (what : String) (k next : Nat) : E (List FileOp) :=
+  match what with
+  | "write" | "rewrite" | "truncate" => pure [.written k]
+  | "chmod" => pure [.attrib k]
+  | "replace" => pure [.fileReplaced k]
+  | "remove" | "move_away" | "rmdir" => pure [.fileRemoved k]
+  | "create" | "move_back" | "mkdir" => pure [.fileBack k]
+  | "register" => pure [.fileBack next, .register next]
+  | o => throw s!"watchfiles: unknown operation {o}"
+
+/-- after every operation the content of every file that exists is overwritten in place: which listeners are told -/
+def probeFiles (l : WatchLoop) (w : Watcher) (n : Nat) : Watcher × List Json :=
+  (List.range n).foldl (fun (acc : Watcher × List Json) i =>
+    if !acc.1.present.contains i then (acc.1, acc.2 ++ [jstr "absent"]) else
+    let w' := watchStep l acc.1 (.written i)
+    (w', acc.2 ++ [jstr (if w'.delivered.length > acc.1.delivered.length then "delivered" else "silent")])) (w, [])
+
+def runWatchFiles (c : Json) : E Json := do
+  let n ← nat c "files"
+  let steps ← (← arr c "steps").mapM fun s => do pure (← str s "do", natD s "file" 0)
+  let out (l : WatchLoop) : E Json := do
+    let w0 : Watcher := ⟨true, List.range n, List.range n, List.range n, []⟩
+    let r ← steps.foldlM (fun (acc : Watcher × Nat × List Json) (s : String × Nat) => do
+      let ops ← fileOps s.1 s.2 acc.2.1
+      let cnt := if s.1 == "register" then acc.2.1 + 1 else acc.2.1
+      let w := watchRun l acc.1 ops
+      let (w', obs) := probeFiles l w cnt
+      pure (w', cnt, acc.2.2 ++ [jarr obs])) (w0, n, [])
+    pure (Json.mkObj [("alive", Json.bool true), ("observed", jarr r.2.2)])
+  pure (Json.mkObj [("res", ← out .head),
+    ("stats", Json.mkObj [("returning", ← out ⟨true, true⟩), ("following", ← out ⟨true, false⟩)])])
+
+/-! ### rule sets polled from an HTTP endpoint -/
+
+def parsePolled (j : Json) : E Polled := do
+  match ← str j "kind" with
+  | "unreachable" => pure .unreachable
+  | "status" => pure (.status (← nat j "code"))
+  | "body" =>
+    let t : Transfer := if strD j "transfer" "complete" == "complete" then .complete else .brokenOff
+    let cj ← fld j "content"
+    let content : EndpointContent ←
+      match ← str cj "kind" with
+      | "empty" => pure .empty
+      | "unparsable" => pure .unparsable
+      | "ruleset" => pure (.ruleSet (← strs cj "ids") (boolD cj "accepted" true))
+      | k => throw s!"endpoint: unknown content {k}"
+    pure (.body t content)
+  | k => throw s!"endpoint: unknown response {k}"
+
+def pollName : PollOutcome → String
+  | .kept => "kept"
+  | .unchanged => "unchanged"
+  | .created => "created"
+  | .updated => "updated"
+  | .deleted => "deleted"
+  | .createdRefused => "created:refused"
+  | .updatedRefused => "updated:refused"
+
+def runEndpoint (c : Json) : E Json := do
+  let rs ← (← arr c "steps").mapM fun s => do parsePolled (← fld s "resp")
+  let out (k : FetchErr) : Json :=
+    let r := rs.foldl (fun (acc : Option (List String) × List Json × List Json) p =>
+      let (o, st) := pollEndpoint k acc.1 p
+      (st, acc.2.1 ++ [jstr (pollName o)], acc.2.2 ++ [jstrs (st.getD [])])) (none, [], [jstrs []])
+    Json.mkObj [("alive", Json.bool true), ("polls", jarr r.2.1), ("rules", jarr r.2.2)]
+  pure (Json.mkObj [("res", out .internal), ("stats", Json.mkObj [("communication", out .communication)])])
+
+/-! ### the status of RuleSet resources -/
+
+/-- into how many parts "/" splits `status.activeIn` (absent or empty: "0/0") -/
+def activeInParts (o : Json) : Nat :=
+  match (fld o "active_in") >>= (·.getStr?) with
+  | .ok s => if s.isEmpty then 2 else (s.splitOn "/").length
+  | .error _ => 2
+
+def parseAnswer (s : String) : PatchAnswer :=
+  match s with
+  | "200" => .ok
+  | "500-text" => .status 500
+  | "200-garbage" | "200-empty" | "200-cut" | "close" | "reset" => .noAnswer
+  | n => match n.toNat? with
+    | some code => .status code
+    | none => .noAnswer
+
+def runK8s (c : Json) : E Json := do
+  let unreachable := boolD c "unreachable" false
+  let evs ← (← arr c "steps").mapM fun s => do
+    let answers := if unreachable then [PatchAnswer.noAnswer] else (strs s "patch").toOption.getD [] |>.map parseAnswer
+    pure (activeInParts (fldD s "obj" Json.null), answers)
+  let out (g : StatusGuards) : Json :=
+    let r := evs.foldl (fun (acc : Proc Nat × List Json) e =>
+      let p := run false [ruleSetEvent g e.1 e.2] acc.1
+      (p, acc.2 ++ [Json.bool p.alive])) (⟨true, 0, 0⟩, [])
+    Json.mkObj [("alive", Json.bool r.1.alive), ("handled", jarr r.2)]
+  pure (Json.mkObj [("res", out .head), ("stats", Json.mkObj [("orig", out .original)])])
+
 def run (c : Json) : E Json := do
   match ← str c "op" with
+  | "watchfiles" => runWatchFiles c
+  | "endpoint" => runEndpoint c
+  | "k8s" => runK8s c
   | "material" => runMaterial c
   | "ruleset" => runRuleSet c
   | "watch" =>
